@@ -155,6 +155,8 @@ def run_batch(exe, n, tier, seed, env=None, start=0, crash_prop='C12', workers=N
             while a < e:
                 rc, out, err = _spawn(exe, ['--range', str(a), str(e), '--tier', tier], env, timeout=spawn_timeout)
                 runs, viols, states, pending = parse_output(out)
+                for v in viols:
+                    v['range_start'] = a   # first run executed by the process in which this violation appeared
                 with lock:
                     b.runs += runs
                     b.viols += viols
@@ -222,6 +224,19 @@ def exec_plan(exe, lines, tier, env, crash_prop):
         cls, detail = classify_crash(rc, err, crash_prop)
         classes[cls] = detail
         hist = 'crash:%s' % (rc,)
+    return classes, hist
+
+
+def exec_range(exe, a, idx, tier, env):
+    """Execute runs a..idx in ONE fresh process (the context in which a batch worker met run idx).
+    Returns the set of violation classes reported for run idx and that run's history digest."""
+    e = dict(env or {})
+    rc, out, err = _spawn(exe, ['--range', str(a), str(idx + 1), '--tier', tier], e, timeout=900)
+    if rc == 'timeout':
+        raise HarnessError('watchdog fired while re-executing a range')
+    runs, viols, states, pending = parse_output(out)
+    classes = {v['cls']: v['detail'] for v in viols if v['idx'] == idx}
+    hist = next((r.hist for r in runs if r.idx == idx), None)
     return classes, hist
 
 
@@ -361,6 +376,18 @@ class Outcome:
                 if len(hits) >= 2 and len({t[1] for t in tries}) > 1:
                     nondet = True
                     c1, h1 = hits[0]
+                elif 'range_start' in v and self._in_context(b, v, cls, known, replays) is not None:
+                    # reproduced twice in its batch context (same runs before it in one process): the outcome of this
+                    # run depends on something the plan does not control but the process history does - heap addresses
+                    # (code under test comparing or hashing pointers), process-global state in the code under test.
+                    # On the unchanged tree no run shows any violation in any context, so this path is reached only
+                    # with a changed tree; it is reported as the violation it is, with the range as its replay.
+                    k = self._in_context(b, v, cls, known, replays)
+                    if k == 'known':
+                        known_hit.append(cls.key())
+                    else:
+                        violations += 1
+                    continue
                 else:
                     # seen in a batch (many runs in one worker process), never alone in a fresh process: either the
                     # harness carried something from one run to the next, or the code under test did (process-global
@@ -407,6 +434,50 @@ class Outcome:
         self.write_evidence(violations, known_hit, replays)
         sys.stdout.flush()
         return 1 if violations else 0
+
+    def _in_context(self, b, v, cls, known, replays):
+        """Second chance for a violation that does not show when its plan runs alone: re-execute, twice, the runs that
+        preceded it in its worker process.  Returns None (not reproduced), 'known' or 'violation' (reported, replay
+        written).  Cached per class so that the probe in the elif and the body share one evaluation."""
+        cache = self.__dict__.setdefault('_ctx_cache', {})
+        if cls in cache:
+            return cache[cls]
+        a, idx = v['range_start'], v['idx']
+        r1, h1 = exec_range(b.exe, a, idx, b.tier, b.env)
+        r2, h2 = exec_range(b.exe, a, idx, b.tier, b.env)
+        if cls not in r1 or cls not in r2 or h1 != h2:
+            cache[cls] = None
+            return None
+        # shorten the context from the front while the violation stays (bisection over the range start)
+        lo = a
+        for _ in range(12):
+            mid = (lo + idx) // 2
+            if mid <= lo:
+                break
+            rr, hh = exec_range(b.exe, mid, idx, b.tier, b.env)
+            if cls in rr:
+                lo = mid
+            else:
+                break
+        rp = os.path.join(VERIF, 'replays', '%s-%s.json' % (self.prop, hashlib.sha1(cls.key().encode()).hexdigest()[:10]))
+        os.makedirs(os.path.dirname(rp), exist_ok=True)
+        json.dump(dict(kind='range', property=self.prop, violation_class=dict(cls._asdict()), detail=r1.get(cls, ''),
+                       world_exe=os.path.relpath(b.exe, VERIF), label=b.label, tier=b.tier,
+                       env={k2: v2 for k2, v2 in b.env.items()}, seed=self.seed, run_index=idx, range_start=lo,
+                       history_digest=h1, context_dependent=True,
+                       plan=gen_plan(b.exe, idx, b.tier, b.env)), open(rp, 'w'), indent=1)
+        replays.append(rp)
+        k = known_match(cls, known)
+        if k:
+            print('KNOWN-FINDING: property=%s %s [%s] replay=%s' % (self.prop, k.get('what', cls.key()), cls.key(), rp))
+            cache[cls] = 'known'
+        else:
+            print('VIOLATION property=%s replay=%s' % (self.prop, rp))
+            print('  class=%s detail=%s' % (cls.key(), r1.get(cls, '')))
+            print('  note: run %d shows this only when runs %d..%d precede it in the same process (its plan alone does not): '
+                  'the outcome depends on process history the plan does not control, e.g. addresses; the replay re-executes that range' % (idx, lo, idx - 1))
+            cache[cls] = 'violation'
+        return cache[cls]
 
     def write_evidence(self, violations, known_hit, replays):
         runs = [r for b in self.batches for r in b.runs]
@@ -476,6 +547,14 @@ def replay_file(path, build_exe):
     d = json.load(open(path))
     exe = build_exe(d)
     cls = VClass(**d['violation_class'])
+    if d.get('kind') == 'range':
+        classes, hist = exec_range(exe, d['range_start'], d['run_index'], d['tier'], d.get('env', {}))
+        if cls in classes:
+            print('REPRODUCED property=%s class=%s history=%s detail=%s (runs %d..%d in one process)' % (
+                cls.prop, cls.key(), hist, classes[cls], d['range_start'], d['run_index']))
+            return 1
+        print('NOT-REPRODUCED property=%s class=%s (history=%s)' % (cls.prop, cls.key(), hist))
+        return 0
     classes, hist = exec_plan(exe, d['plan'], d['tier'], d.get('env', {}), cls.prop)
     for _ in range(7 if d.get('nondeterministic') else 0):
         if cls in classes:
